@@ -26,7 +26,7 @@ chk(
 chk(
     "C04",
     "translation_validation",
-    "accfg programs over real accelerator instances (hwpe_mult, alu, gemmx, xdma configurations, gemmini, PHS instances built by the real encoder/merge with 0..n switches) are executed on the accfg machine before and on a CSR/RoCC instruction machine after the real convert-accfg-to-csr; the logs are cut at launches/awaits and compared (one write per configured field at the declared address with the field's value, launch writes in order, await polls the declared barrier and terminates, RoCC instructions carry the values in effect for both operands); the module is walked for surviving state values; register maps of enumerated configurations are checked for injectivity including reserved registers (exhaustive over the uniform configuration box).",
+    "accfg programs over real accelerator instances (hwpe_mult, alu, gemmx, xdma configurations, gemmini, PHS instances built by the real encoder/merge with 0..n switches) are executed on the accfg machine before and on a CSR/RoCC instruction machine after the real convert-accfg-to-csr; the logs are cut at launches/awaits and compared (one write per configured field at the declared address with the field's value, launch writes in order, await polls the declared barrier and terminates, RoCC instructions carry the values in effect for both operands); the module is walked for surviving state values; register maps of enumerated configurations are checked for injectivity including reserved registers (exhaustive over the uniform configuration box); gemmx launches with channel-wise quantisation attributes are lowered end to end (convert-linalg-to-accfg, convert-accfg-to-csr) and the per-group register contents at each array launch are compared with the attribute values.",
     TB + "accfg machine, CSR machine vf/interp/csr_m.py with the status protocol per barrier class from the C snippets in snaxc/accelerators/snax.py; reserved-register rule from the get_streamer_launch_dict docstring and the xDMA multicast gap; injectivity is not demanded of the RoCC accelerator (rs1/rs2 share a funct7 by design).",
     "runtime monitoring: event-log comparison of the program before/after the real lowering on abstract CSR machines; invariant check on generated register maps",
     "DESIGN.md section 3 C04",
